@@ -10,6 +10,10 @@ structure St where
   /-- virtual time at which the timer descriptor was last armed (`TimerQueue` floors the
   relative expiry at 100 µs, so the alarm is `max deadline (armedAt + 100)`) -/
   armedAt : Nat := 0
+  /-- the timer descriptor is still armed for the deadline of a CANCELLED back-off timer: `TimerQueue::cancel` erases
+  the timer but leaves the descriptor as it is (a spurious wake-up follows); only deadlines the model itself cancelled
+  are ever put here -/
+  fdGhost : Option Nat := none
 
 def parseWho : String → Who
   | "F" => .foreign
@@ -69,21 +73,21 @@ def earliest (c : C) : Option Nat :=
   | [] => none
   | d :: rest => some (rest.foldl min d)
 
-def alarm (c : C) (armedAt : Nat) : String :=
-  match earliest c with
+def alarm (c : C) (armedAt : Nat) (fdGhost : Option Nat := none) : String :=
+  match (match fdGhost with | some g => some g | none => earliest c) with
   | none => "-"
   | some m =>
     let a := max m (armedAt + 100)
     if a ≤ c.now then "-" else toString a
 
-def stLine (c : C) (armedAt : Nat) : String :=
+def stLine (c : C) (armedAt : Nat) (fdGhost : Option Nat := none) : String :=
   let conn :=
     if !c.clientAlive then "gone"
     else match c.connection with
       | none => "none"
       | some k => match connSt c k with
         | .connected => "C" | .disconnecting => "X" | .disconnected => "D"
-  s!"st conn={conn} alarm={alarm c armedAt} fds={openFds c}"
+  s!"st conn={conn} alarm={alarm c armedAt fdGhost} fds={openFds c}"
 
 def exec (s : St) (ws : List String) : St × List String :=
   let (c0, active) := feedEnv s.c s.env
@@ -116,14 +120,33 @@ def exec (s : St) (ws : List String) : St × List String :=
   -- `< arm <ns>`: the timer descriptor was (re)armed during this step, relative to the step's clock
   let arms := s.env.filterMap (fun ws => match ws with | ["<", "arm", ns] => ns.toNat? | _ => none)
   let armedAt := if arms.isEmpty then s.armedAt else c1.now
-  let armDiag : List String := match arms.getLast?, earliest c1 with
-    | some ns, some m =>
-      if ns / 1000 = max (m - c1.now) 100 then []
-      else [s!"arm-mismatch: implementation armed {ns} ns, model expects {max (m - c1.now) 100} us"]
-    | some ns, none => [s!"arm-mismatch: implementation armed {ns} ns, the model has no timer"]
-    | none, _ => []
-  ({ c := c1, env := [], armedAt := armedAt },
-   outs ++ diag ++ armDiag ++ (if c1.dead then [] else [stLine c1 armedAt]))
+  -- back-off timers that were pending (or were armed during this step) and are gone without having been due: cancelled
+  let retryDl := fun (c : C) => (c.timers.filter (fun t => t.2 == .retry)).map (·.1)
+  let sched : List Nat := (c1.trace.drop tlen).filterMap (fun e =>
+    match e with | .retryScheduled _ ms t => some (t + ms * 1000) | _ => none)
+  let ghosts := (retryDl c0 ++ sched).filter (fun d => decide (c1.now < d) && !(retryDl c1).contains d)
+  let live := earliest c1
+  let fits := fun (ns m : Nat) => ns / 1000 == max (m - c1.now) 100
+  -- the last (re)arming of the step: for the model's earliest timer, or - the step cancelled it afterwards - for a ghost
+  let (armDiag, ghostArm) : List String × Option Nat := match arms.getLast? with
+    | none => ([], none)
+    | some ns =>
+      if (match live with | some m => fits ns m | none => false) then ([], none)
+      else match ghosts.find? (fits ns) with
+        | some g => ([], some g)
+        | none => match live with
+          | some m => ([s!"arm-mismatch: implementation armed {ns} ns, model expects {max (m - c1.now) 100} us"], none)
+          | none => ([s!"arm-mismatch: implementation armed {ns} ns, the model has no timer"], none)
+  let timerRan := ws == ["iter"] && active.contains Src.timer
+  let cands : List Nat :=
+    (if timerRan || !arms.isEmpty then [] else s.fdGhost.toList) ++ (if arms.isEmpty then ghosts else ghostArm.toList)
+  -- (a ghost deadline that has passed stays - shown as `-` - until the timer dispatch reads the descriptor)
+  let ok := fun (g : Nat) => (match live with | none => true | some m => decide (g < m))
+  let fdGhost : Option Nat := match cands.filter ok with
+    | [] => none
+    | g :: rest => some (rest.foldl min g)
+  ({ c := c1, env := [], armedAt := armedAt, fdGhost := fdGhost },
+   outs ++ diag ++ armDiag ++ (if c1.dead then [] else [stLine c1 armedAt fdGhost]))
 
 def main (lines : Array String) (args : List String) : IO Unit := do
   let asserts := !(args.contains "ndebug")
